@@ -500,7 +500,6 @@ func reachesAvoidingP(from, target *ssa.BasicBlock, stop func(*ssa.BasicBlock) b
 	return false
 }
 
-
 // armCut: edges a path of the given arm cannot take - at a test "kind == Y" a path of arm Query/X goes the true way iff X is Y.
 func (ar *Arms) armCut(arm string) func(pred, b *ssa.BasicBlock, k int) bool {
 	return func(_, b *ssa.BasicBlock, k int) bool {
